@@ -5,9 +5,10 @@ d=$(readlink -f "$1")
 wt=$(mktemp -d /tmp/seedcf_XXXXXX); rmdir "$wt"
 git -C /repo worktree add --detach "$wt" HEAD >/dev/null 2>&1 || exit 9
 cd "$wt"
-PYTHONPATH="$wt" timeout 300 /venv/bin/python -W ignore "$d/demo.py" >/dev/null 2>&1; clean=$?
+v=$(basename "$d"); mkdir -p "$wt/_out/$v"; cp "$d/demo.py" "$wt/_out/$v/demo.py"   # demos locate the tree relative to themselves or to cwd
+PYTHONPATH="$wt" timeout 300 /venv/bin/python -W ignore "$wt/_out/$v/demo.py" >/dev/null 2>&1; clean=$?
 if ! git apply "$d/patch.diff" 2>/dev/null && ! git apply --3way "$d/patch.diff" 2>/dev/null; then echo "CONFIRM $d: patch does not apply"; cd /; git -C /repo worktree remove --force "$wt"; exit 9; fi
-PYTHONPATH="$wt" timeout 300 /venv/bin/python -W ignore "$d/demo.py" >/dev/null 2>&1; seeded=$?
+PYTHONPATH="$wt" timeout 300 /venv/bin/python -W ignore "$wt/_out/$v/demo.py" >/dev/null 2>&1; seeded=$?
 if [ "$SKIP_PYTEST" = 1 ]; then tail="(pytest skipped)"; else
 tail=$(/venv/bin/python -m pytest -q -p no:cacheprovider --timeout=900 --continue-on-collection-errors 2>&1 | tail -1); fi
 cd /
